@@ -76,7 +76,9 @@ fn run(input: RunInput) -> ScenFuture {
         let svc = Svc::new(&w, plan.clone());
         let h = svc.handle();
         let server = w.start_node(w.spec_exact(2, cfg_s), svc).unwrap();
-        let server2 = starved.then(|| w.start_node(w.spec_exact(3, cfg_s2), Svc::new(&w, plan.clone())).unwrap());
+        let svc2 = Svc::new(&w, plan.clone());
+        let h2 = svc2.handle();
+        let server2 = starved.then(|| w.start_node(w.spec_exact(3, cfg_s2), svc2).unwrap());
         // the defaults must take effect on every RPC made through a network, however it was built:
         // with or without a user-supplied outbound request layer
         let mut spec_c = w.spec_exact(1, cfg_c);
@@ -321,8 +323,16 @@ fn run(input: RunInput) -> ScenFuture {
                 let req = Request::new(Bytes::from(format!("hold{k}"))).with_header("x-nonce", (1_000 + k).to_string()).with_header("x-delay-us", "3000000");
                 holders.push(tokio::spawn(async move { net.rpc(pid, req).await.map(|r| r.status()).map_err(|e| format!("{e:#}")) }));
             }
+            // wait until the holders really hold the streams (their handlers run): a stream the
+            // probe used comes back only with the server's next MAX_STREAMS, and whoever waits for
+            // it at that moment may get it
+            let t_wait = w.now_ns();
+            while (h2.seen().iter().filter(|s| s.nonce.map(|n| (1_000..1_000 + budget).contains(&n)).unwrap_or(false)).count() as u64) < budget && w.now_ns() - t_wait < 1_000 * MS {
+                sleep_us(1_000).await;
+            }
             sleep_us(2 * lat_max_us + 2_000).await;
-            let t_ms = r.gen_range(1..=(occupancy_ms / 2 - 2 * lat_max_us / 1000 - 5).max(1));
+            let occupancy_ms = occupancy_ms.saturating_sub((w.now_ns() - t_wait) / MS);
+            let t_ms = r.gen_range(1..=(occupancy_ms / 2).saturating_sub(2 * lat_max_us / 1000 + 5).max(1));
             let req = Request::new(Bytes::from_static(b"starved")).with_header("x-nonce", "2000").with_header("timeout", (t_ms * MS).to_string());
             let t0 = w.now_ns();
             let res = client.net.rpc(server.peer_id, req).await;
